@@ -87,6 +87,25 @@ type c06Case struct {
 	Clock bool   `json:"clock,omitempty"`
 	Mins  []int  `json:"mins,omitempty"`
 	BMins [4]int `json:"bmins,omitempty"`
+	// layout "2006-01-02 15:04 -0700": every record and every explicit bound also carries a UTC offset in minutes; the
+	// instant is what counts (day*1440 + minute - offset)
+	Offs  []int  `json:"offs,omitempty"`
+	BOffs [4]int `json:"boffs,omitempty"`
+
+	snapTo bool // generator only
+}
+
+const c06ZoneLayout = "2006-01-02 15:04 -0700"
+
+func c06Zoned(c c06Case) bool { return c.Layout == c06ZoneLayout }
+
+func c06InstZ(day, min, off int) string {
+	sign := "+"
+	o := off
+	if o < 0 {
+		sign, o = "-", -o
+	}
+	return fmt.Sprintf("%s %02d:%02d %s%02d%02d", vFmtDay(day, "2006-01-02"), min/60, min%60, sign, o/60, o%60)
 }
 
 // c06Unit: how many units of Mins/BMins a day has under the layout (minutes, or milliseconds for the layout with
@@ -113,12 +132,15 @@ func c06SortedLines(s string) string {
 
 func checkC06(c c06Case, ctx *vCtx) *vFailure {
 	if c.Clock {
-		if (c.Layout != "2006-01-02 15:04" && c.Layout != "2006-01-02 15:04:05.000") || len(c.Mins) != len(c.S.Log.Recs) {
+		if (c.Layout != "2006-01-02 15:04" && c.Layout != "2006-01-02 15:04:05.000" && !c06Zoned(c)) || len(c.Mins) != len(c.S.Log.Recs) || (c06Zoned(c) && len(c.Offs) != len(c.Mins)) {
 			vFault("C06 clock mode: layout %q, %d records, %d minutes", c.Layout, len(c.S.Log.Recs), len(c.Mins))
 		}
 		recs := append([]vRec{}, c.S.Log.Recs...)
 		for i := range recs {
 			recs[i].Head = c06Inst(c.S.Days[i], c.Mins[i], c.Layout)
+			if c06Zoned(c) {
+				recs[i].Head = c06InstZ(c.S.Days[i], c.Mins[i], c.Offs[i])
+			}
 		}
 		c.S.Log.Recs = recs
 		ctx.Label("clock-format")
@@ -178,11 +200,25 @@ func checkC06(c c06Case, ctx *vCtx) *vFailure {
 		if c.Clock && c.Summary.Kind == "date" {
 			arg = c06Inst(c.Summary.Day, c.BMins[0], c.Layout) // any instant of the day names the day
 		}
+		selDay := func(i int) bool { return c.S.Days[i] == day }
+		if c06Zoned(c) {
+			// the day is the calendar day of the argument in the zone it is written in (keywords: midnight UTC)
+			off := 0
+			if c.Summary.Kind == "date" {
+				off = c.BOffs[0]
+				arg = c06InstZ(c.Summary.Day, c.BMins[0], off)
+			}
+			lo := day*1440 - off
+			selDay = func(i int) bool {
+				ti := c.S.Days[i]*1440 + c.Mins[i] - c.Offs[i]
+				return ti >= lo && ti <= lo+1439
+			}
+		}
 		ctx.Label("summary:" + c.Summary.Kind)
 		base := append([]string{}, fmtArgs...)
 		inv := vInvocation{Args: append(append(base, "-d", bookPath, "-l", fullPath), "--no-color", "summary", arg), TZ: c.TZ}
 		got := run(inv)
-		redPath, nsel, _ := reduced(func(i int) bool { return c.S.Days[i] == day })
+		redPath, nsel, _ := reduced(selDay)
 		ref := run(vInvocation{Args: append(append(append([]string{}, fmtArgs...), "-d", bookPath, "-l", redPath), "--no-color", "summary", arg), TZ: c.TZ})
 		ctx.NonTrivial(nsel > 0 && nsel < len(c.S.Days))
 		if got.Failed || ref.Failed {
@@ -231,12 +267,24 @@ func checkC06(c c06Case, ctx *vCtx) *vFailure {
 			kE = 3
 		}
 		unit := c06Unit(c.Layout)
-		loI, hiI := lo*unit+bmin(effB, kB), hi*unit+bmin(effE, kE)
+		boff := func(b c06Bound, k int) int {
+			if b.Kind == "date" && c06Zoned(c) {
+				return c.BOffs[k]
+			}
+			return 0
+		}
+		loI, hiI := lo*unit+bmin(effB, kB)-boff(effB, kB), hi*unit+bmin(effE, kE)-boff(effE, kE)
 		sel = func(i int) bool {
 			ti := c.S.Days[i]*unit + c.Mins[i]
+			if c06Zoned(c) {
+				ti -= c.Offs[i]
+			}
 			return (!hasLo || ti >= loI) && (!hasHi || ti <= hiI)
 		}
 		btext = func(b c06Bound, k int) string {
+			if b.Kind == "date" && c06Zoned(c) {
+				return c06InstZ(b.Day, c.BMins[k], c.BOffs[k])
+			}
 			if b.Kind == "date" {
 				return c06Inst(b.Day, c.BMins[k], c.Layout)
 			}
@@ -344,8 +392,21 @@ const c06Base = 40 // first day of the window (2021-02-10); month boundary: use 
 var c06FarDays = []int{vDaysFromCivil(1, 1, 1), vDaysFromCivil(1000, 1, 1), vDaysFromCivil(1582, 10, 15), vDaysFromCivil(1677, 9, 20), vDaysFromCivil(1677, 9, 21), vDaysFromCivil(1677, 9, 22), vDaysFromCivil(1800, 1, 1),
 	vDaysFromCivil(1969, 12, 31), vDaysFromCivil(1970, 1, 1), vDaysFromCivil(2038, 1, 19), vDaysFromCivil(2038, 1, 20), vDaysFromCivil(2100, 12, 31), vDaysFromCivil(2262, 4, 11), vDaysFromCivil(2262, 4, 12), vDaysFromCivil(2262, 4, 13), vDaysFromCivil(3000, 1, 1), vDaysFromCivil(9999, 12, 31)}
 
+// c06NoFar: the layout of the case cannot write dates far from the log (two-digit year), nor days before the window
+var c06NoFar = false
+
 func genC06Bound(t *rapid.T, base int, today int, label string) c06Bound {
-	switch rapid.IntRange(0, 10).Draw(t, label+".kind") {
+	kind := rapid.IntRange(0, 10).Draw(t, label+".kind")
+	if c06NoFar {
+		switch kind {
+		case 0, 1:
+			return c06Bound{}
+		case 2, 3, 10:
+			return c06Bound{Kind: []string{"today", "yesterday", "last7", "last30"}[rapid.IntRange(0, 3).Draw(t, label+".kw")]}
+		}
+		return c06Bound{Kind: "date", Day: base + rapid.IntRange(0, 6).Draw(t, label+".day")}
+	}
+	switch kind {
 	case 0, 1:
 		return c06Bound{}
 	case 10:
@@ -358,7 +419,9 @@ func genC06Bound(t *rapid.T, base int, today int, label string) c06Bound {
 }
 
 func genC06(t *rapid.T) c06Case {
-	layout := []string{"", "", "2006-01-02", "02.01.2006", "2006/02/01"}[rapid.IntRange(0, 4).Draw(t, "layout")]
+	layout := []string{"", "", "2006-01-02", "02.01.2006", "2006/02/01", "06/01/02"}[rapid.IntRange(0, 5).Draw(t, "layout")]
+	c06NoFar = layout == "06/01/02"
+	defer func() { c06NoFar = false }()
 	// windows incl. month, year and leap-day boundaries and daylight-saving changes (2021-03-14 Havana/US, 2021-03-28 EU,
 	// 2021-09-05 Santiago, 2021-11-07 US)
 	// -3 and 1458: 31 December of a leap year next to 1 January
@@ -367,6 +430,10 @@ func genC06(t *rapid.T) c06Case {
 	bases := []int{c06Base, 56, 362, 1150, 70, 84, 245, 308, -3, 1458, -18631, -44197, 28852,
 		vDaysFromCivil(1677, 9, 19), vDaysFromCivil(2262, 4, 9), vDaysFromCivil(1, 2, 15), vDaysFromCivil(1000, 2, 26), vDaysFromCivil(9999, 12, 20), vDaysFromCivil(2038, 1, 17)}
 	base := bases[rapid.IntRange(0, len(bases)-1).Draw(t, "base")]
+	if c06NoFar {
+		// the first days of the first year the layout can write: the keywords reach back into a year it cannot write
+		base = []int{vDaysFromCivil(1969, 1, 1), vDaysFromCivil(1969, 1, 1), vDaysFromCivil(2068, 12, 20), c06Base}[rapid.IntRange(0, 3).Draw(t, "base2y")]
+	}
 	exact := true
 	lo := vLayoutOpts{Plain: true}
 	if rapid.IntRange(0, 4).Draw(t, "varlayout") == 0 {
@@ -378,6 +445,9 @@ func genC06(t *rapid.T) c06Case {
 		d := s.Days[i] + base
 		if rapid.IntRange(0, 11).Draw(t, "outside") == 0 {
 			d = base + []int{-1, 6, -8, -31, 7}[rapid.IntRange(0, 4).Draw(t, "outday")]
+			if c06NoFar {
+				d = base + 6
+			}
 		}
 		s.Days[i] = d
 		s.Log.Recs[i].Head = vFmtDay(d, layout)
@@ -390,7 +460,7 @@ func genC06(t *rapid.T) c06Case {
 		FmtVia:  []string{"", "", "env", "config"}[rapid.IntRange(0, 3).Draw(t, "fmtvia")]}
 	if layout == "" && rapid.IntRange(0, 2).Draw(t, "clock") == 0 {
 		// a date format with a clock component: the period is an interval of instants (minutes, or milliseconds)
-		c.Clock, c.Layout = true, []string{"2006-01-02 15:04", "2006-01-02 15:04:05.000"}[rapid.IntRange(0, 1).Draw(t, "clocklayout")]
+		c.Clock, c.Layout = true, []string{"2006-01-02 15:04", "2006-01-02 15:04:05.000", c06ZoneLayout}[rapid.IntRange(0, 2).Draw(t, "clocklayout")]
 		unit := c06Unit(c.Layout)
 		edges := []int{0, 1, 719, 720, 1438, 1439}
 		if unit > 1440 {
@@ -408,6 +478,16 @@ func genC06(t *rapid.T) c06Case {
 		for k := range c.BMins {
 			c.BMins[k] = instant(fmt.Sprintf("bmin%d", k))
 		}
+		offsets := []int{0, 0, 120, -420, 330, 780, -660, 345, -210, 840, -720}
+		if c.Layout == c06ZoneLayout {
+			for i := range c.S.Log.Recs {
+				c.Offs = append(c.Offs, offsets[rapid.IntRange(0, len(offsets)-1).Draw(t, fmt.Sprintf("off%d", i))])
+			}
+			for k := range c.BOffs {
+				c.BOffs[k] = offsets[rapid.IntRange(0, len(offsets)-1).Draw(t, fmt.Sprintf("boff%d", k))]
+			}
+		}
+		c.snapTo = len(c.S.Log.Recs) > 0 && rapid.IntRange(0, 2).Draw(t, "snap") == 0
 	}
 	if rapid.IntRange(0, 7).Draw(t, "summary") == 0 {
 		b := genC06Bound(t, base, today, "sum")
@@ -426,6 +506,24 @@ func genC06(t *rapid.T) c06Case {
 	default:
 		c.GB, c.GE = genC06Bound(t, base, today, "gb"), genC06Bound(t, base, today, "ge")
 		c.SB, c.SE = genC06Bound(t, base, today, "sb"), genC06Bound(t, base, today, "se")
+	}
+	if c.snapTo {
+		// one explicit bound falls exactly on a record: the same text, or (zone layout) the same instant written with
+		// another offset
+		bs := []*c06Bound{&c.GB, &c.GE, &c.SB, &c.SE}
+		k := rapid.IntRange(0, 3).Draw(t, "snapk")
+		if bs[k].Kind == "date" {
+			j := rapid.IntRange(0, len(c.S.Log.Recs)-1).Draw(t, "snapj")
+			bs[k].Day, c.BMins[k] = c.S.Days[j], c.Mins[j]
+			if c.Layout == c06ZoneLayout {
+				c.BOffs[k] = c.Offs[j]
+				if o2 := []int{0, 330, -210, 120}[rapid.IntRange(0, 3).Draw(t, "snapoff")]; rapid.Bool().Draw(t, "snapother") {
+					if m := c.Mins[j] + o2 - c.Offs[j]; m >= 0 && m < 1440 {
+						c.BMins[k], c.BOffs[k] = m, o2
+					}
+				}
+			}
+		}
 	}
 	return c
 }
